@@ -150,3 +150,20 @@ Proof.
   munfold. replace (cb / (0 + 1 / 1000000000)) with (cb * 1000000000) by (field; lra).
   unfold Rmin. rcases; repeat scase1; lra.
 Qed.
+
+(* vivid light is NOT monotone in the source across Cs = 1/2: color_burn(b, 1) = 1 - (1-b)/(1+e) sits about
+   e/2 above color_dodge(b, 0+) = b/(1+e); witness b = 1/2, s = 1/2, s' = 1/2 + 1/(4*10^10) *)
+Lemma vivid_light_seam_refuted : ~ mono_s (vivid_light NR).
+Proof.
+  intro H. specialize (H (1/2) (1/2) (1/2 + 1/40000000000)). unfold unit in H.
+  assert (G : vivid_light NR (1/2) (1/2) <= vivid_light NR (1/2) (1/2 + 1/40000000000)) by (apply H; lra).
+  clear H. revert G. munfold.
+  rewrite (Rleb_true (1/2) (1/2)) by lra. rewrite (Rleb_false (1 / 2 + 1 / 40000000000) (1/2)) by lra.
+  cbn [negb]. cbv iota.
+  rewrite (Reqb_false (1/2) 1) by lra. rewrite (Reqb_false (1 / 2 * 2) 0) by lra.
+  rewrite (Reqb_false ((1 / 2 + 1 / 40000000000) * 2 - 1) 1) by lra. rewrite (Reqb_false (1/2) 0) by lra.
+  cbn [negb andb]. cbv iota.
+  nameq (1 - 1 / 2) (1 * (1 / 2 * 2) + 1 / 1000000000).
+  nameq (1 / 2) (1 * (1 - ((1 / 2 + 1 / 40000000000) * 2 - 1) + 1 / 1000000000)).
+  rcases; intro G; nra.
+Qed.
